@@ -144,4 +144,4 @@ def count(name, lines, ib, stats, meta):
         oc = ('k%d%+d' % ((off + 2) // P, off - ((off + 2) // P) * P)) if abs(off - ((off + 2) // P) * P) <= 2 else 'o'
         stats['distinct'].add((d['body'][0] if d['body'][0] in (14, 17, 19) else 'x', oc, q['more'] if q else None, (q['len'] == P, q['len'] == 0) if q else None, mtu if mtu in (576, 1500, 9216) else 'r'))
         if len(stats['samples']) < 4 and q and q['more']: stats['samples'].append({'type': d['body'][0], 'offset': off, 'mtu': mtu, 'len': q['len'], 'more': q['more']})
-EXPLORE = dict(ops=('frame',), mtu=True)
+EXPLORE = dict(domain='frames', ops=('frame',), mtu=True)
